@@ -898,9 +898,11 @@ func (s *session) redialForClient(oldConn net.Conn) bool {
 	s.lock.Lock()
 	defer s.lock.Unlock()
 	vp("redial.locked", s, 0, 0)
-	// Avoid repeated calls from write and readDisconnected methods
+	// Avoid repeated calls from write and readDisconnected methods:
+	// somebody else has redialed in the meantime (holding the lock until the
+	// round was over); if that round failed, this is not a success either
 	if oldConn != s.getConn() {
-		return true
+		return !s.checkStatus(statusRedialFailed)
 	}
 	if s.tryChangeStatus(statusRedialing, statusOk, statusPassiveClosing, statusPassiveClosed, statusRedialFailed) {
 		return s.redialForClientLocked()
